@@ -27,7 +27,7 @@ var R = hx.NewRecorder("C06", "cases = (server mode gm|auto|tls, client kind gm|
 	"non-trivial = handshake completed with data moved each way, or a forbidden combination that reached the peer's first flight; distinct by hash of the case description")
 
 func TestMain(m *testing.M) {
-	R.Require("clientcert:via_intermediate", "ekm_long_input", "reconnect", "reconnect_resumed", "interop_suite:c030", "interop_suite:9d", "interop_suite:c02f", "interop_suite:c014", "interop_suite:cca8", "interop_suite:2f", "ref_peer", "readbuf<record", "mode:gm", "mode:auto", "mode:tls", "suite:e013", "suite:e053", "tls10", "tls11", "tls12", "auth:0", "auth:1", "auth:2", "auth:3", "auth:4",
+	R.Require("clientcert:ec", "clientcert:via_intermediate", "ekm_long_input", "reconnect", "reconnect_resumed", "interop_suite:c030", "interop_suite:9d", "interop_suite:c02f", "interop_suite:c014", "interop_suite:cca8", "interop_suite:2f", "ref_peer", "readbuf<record", "mode:gm", "mode:auto", "mode:tls", "suite:e013", "suite:e053", "tls10", "tls11", "tls12", "auth:0", "auth:1", "auth:2", "auth:3", "auth:4",
 		"clientcert:untrusted", "clientcert:callback_untrusted", "certsource:callbacks", "stdlib_client", "stdlib_server", "passive_decoder", "payload>16KiB", "fragment==1", "must_fail", "must_succeed")
 	hx.Main(m, R)
 }
@@ -172,7 +172,7 @@ func drawCase(t *rapid.T) hsCase {
 	}
 	c.ClientCert = rapid.SampledFrom([]string{"none", "trusted", "trusted", "callback", "untrusted", "callback_untrusted", "expired", "serverauth_only", "via_intermediate", "via_intermediate"}).Draw(t, "clientcert")
 	if c.ClientKind == "tls" {
-		c.ClientCert = rapid.SampledFrom([]string{"none", "rsa", "rsa"}).Draw(t, "clientcert_tls")
+		c.ClientCert = rapid.SampledFrom([]string{"none", "rsa", "rsa", "ec", "ec"}).Draw(t, "clientcert_tls")
 	}
 	c.Tickets = rapid.Bool().Draw(t, "tickets")
 	size := func(name string) int {
@@ -290,6 +290,8 @@ func build(c hsCase, id string) (ccfg, scfg *gmtls.Config) {
 		cc = p.ClientServerAuthOnly
 	case "rsa":
 		cc = p.RSAClient
+	case "ec":
+		cc = p.ECClient // ECDSA client certificate: the CertificateVerify hash differs from RSA below TLS 1.2
 	}
 	if cc != nil {
 		if c.ClientCert == "callback" || c.ClientCert == "callback_untrusted" {
@@ -610,6 +612,8 @@ func runWithStd(c hsCase, ccfg, scfg *gmtls.Config, csend, ssend []byte) *stdRes
 			CipherSuites: c.CliSuites, InsecureSkipVerify: c.SkipVerify}
 		if c.ClientCert == "rsa" {
 			sc.Certificates = []stdtls.Certificate{{Certificate: [][]byte{p.RSAClient.DER}, PrivateKey: p.RSAClient.Key}}
+		} else if c.ClientCert == "ec" {
+			sc.Certificates = []stdtls.Certificate{{Certificate: [][]byte{p.ECClient.DER}, PrivateKey: p.ECClient.Key}}
 		}
 		ds := hub.GoAll(func() { stdSide(stdtls.Client(cw, sc), csend, c.CFrag) }, func() { gmSide(gmtls.Server(sw, scfg), ssend, c.SFrag) })
 		d1, d2 = ds[0], ds[1]
@@ -667,6 +671,8 @@ func stdControl(c hsCase) bool {
 		CipherSuites: c.CliSuites, InsecureSkipVerify: c.SkipVerify}
 	if c.ClientCert == "rsa" {
 		ccfg.Certificates = []stdtls.Certificate{{Certificate: [][]byte{p.RSAClient.DER}, PrivateKey: p.RSAClient.Key}}
+	} else if c.ClientCert == "ec" {
+		ccfg.Certificates = []stdtls.Certificate{{Certificate: [][]byte{p.ECClient.DER}, PrivateKey: p.ECClient.Key}}
 	}
 	scfg := &stdtls.Config{Certificates: []stdtls.Certificate{{Certificate: [][]byte{std.DER}, PrivateKey: std.Key}}, Time: tlsx.FixedTime,
 		MinVersion: v(c.SMin, 0x0301), MaxVersion: v(c.SMax, 0x0303), CipherSuites: c.SrvSuites, ClientAuth: stdtls.ClientAuthType(c.ClientAuth), ClientCAs: pool,
@@ -1029,3 +1035,4 @@ func TestC06_ReferencePeer(t *testing.T) {
 		R.Case(len(a) > 0 && len(b) > 0, hx.HashKey("refpeer", suite, gmIsClient, auth, withCert, len(a), len(b)), "ref_peer", fmt.Sprintf("suite:%x", suite))
 	})
 }
+
